@@ -13,14 +13,15 @@ ENGINES = {
     # external harness crates: path dependencies on /repo/crates/*, public API only
     # shadow crates: regenerated from /repo's sources on every run (bin/shadowgen.py)
     "shadow_crdt": {"cwd": "$CACHE/shadow/crdt", "pkg": [], "slots": 4, "prepare": "prepare_crdt"},
+    "shadow_limiter": {"cwd": "$CACHE/shadow/limiter", "pkg": [], "slots": 1, "prepare": "prepare_limiter"},
     "shadow_sync": {"cwd": "$CACHE/shadow/sync", "pkg": [], "slots": 2, "prepare": "prepare_sync"},
     "shadow_canonical": {"cwd": "$CACHE/shadow/canonical", "pkg": [], "slots": 2, "prepare": "prepare_canonical"},
     "ext_radicle": {"cwd": "$VERIF/harness/ext/radicle", "pkg": [], "slots": 2, "copy_lock": True},
     "ext_c27": {"cwd": "$VERIF/harness/ext/c27", "pkg": [], "slots": 3, "copy_lock": True},
 }
-SETUP_ENGINES = ["node", "ext_c27", "shadow_crdt", "shadow_sync", "shadow_canonical", "ext_radicle"]
+SETUP_ENGINES = ["node", "ext_c27", "shadow_crdt", "shadow_sync", "shadow_canonical", "ext_radicle", "shadow_limiter"]
 # replay include files that exist in harness sources of an engine but belong to no registered harness (yet)
-EXTRA_REPLAY_FILES = {"ext_radicle": ["ext_radicle"], "shadow_canonical": ["shadow_canonical"], "shadow_sync": ["shadow_sync"], "shadow_crdt": ["shadow_crdt"], "ext_c27": ["ext_c27"], "node": ["wire_c13", "wire_c14", "wire_c15", "service_c29", "limiter"]}
+EXTRA_REPLAY_FILES = {"shadow_limiter": ["shadow_limiter"], "ext_radicle": ["ext_radicle"], "shadow_canonical": ["shadow_canonical"], "shadow_sync": ["shadow_sync"], "shadow_crdt": ["shadow_crdt"], "ext_c27": ["ext_c27"], "node": ["wire_c13", "wire_c14", "wire_c15", "service_c29", "limiter"]}
 
 Q = ["quick", "thorough"]
 T = ["thorough"]
@@ -166,11 +167,15 @@ for _k, _tiers, _rates in [(3, Q, ["0", "0p1", "0p2", "third", "0p5", "1", "2p5"
 _c17h.append(H("c17_is_routable_classifies_every_ipv4", "node", _M17, "limiter", tiers=Q, covers=2,
     functions=["radicle::node::address::is_routable", "ipv4_is_routable", "ipv6_is_routable"],
     bounds="every IPv4 address (4 symbolic octets) and every IPv6 address (16 symbolic octets)", stubs=[]))
+_c17h.append(H("c17_exemptions_hold_after_any_warmup", "shadow_limiter", "limiter::verif_kani", "shadow_limiter", tiers=Q, covers=3, timeout={"quick": 1500, "thorough": 3000},
+    functions=["service::limiter::RateLimiter::{new,limit}", "TokenBucket::{new,take,refill}", "radicle::node::address::is_routable"],
+    bounds="one host (any IPv4 address), one bypassed and one ordinary node, bucket capacity 1 without refill; an arbitrary warm-up request (none / anonymous / ordinary / bypassed) followed by the request under test from any of the three requesters",
+    stubs=["K-shadow (single file): service/limiter.rs copied verbatim; `use std::collections::{HashMap, HashSet}` rewritten to two-slot models (harness/shadow/vhash.rs); HostName, NodeId, address::is_routable, LocalTime are the real code via path dependencies"]))
 PROPERTIES["C17"] = {
     "harnesses": _c17h,
     "outside": ["refill rates other than the 8 listed (symbolic x symbolic f64 multiplication does not terminate on any back end here, DESIGN §8)",
                 "more than 5 requests per timeline; capacities above 2^20",
-                "RateLimiter::limit itself (HashMap<HostName, TokenBucket> / HashSet<NodeId> state): that bypassed nodes and non-routable addresses return before a bucket is touched is read off the source; only the address classifier is checked",
+                "RateLimiter::limit is checked over two-slot models of HashMap/HashSet (single-file shadow), for one host and two nodes; more hosts / more bypass entries are outside",
                 "non-monotonic `now`: TokenBucket::refill panics (LocalTime::duration_since) on a backwards clock, but its only caller passes Service::clock, which Service::tick only ever advances (read off the source)"],
     "assumptions": ["request times are non-decreasing (established by Service::tick)", "IEEE-754 double arithmetic as modelled by CBMC's float encoding"],
 }
